@@ -157,7 +157,16 @@ claim("C12", "proof",
       "shrunk from BUFSIZ to 32 bytes in its harness (bounded, labelled).",
       "CBMC safety checks inside DFCC-enforced contracts (assigns clauses as frames) with exact-size is_fresh/malloc buffers", "4/C12")
 
+claim("C06", "proof",
+      "Only the key-persistence part of the property is claimed: for the three ISAP variants save_key is enforced against "
+      "'output == canon(ke) || canon(ka), key object not written', load_key against 'canonical key states == the 80 input "
+      "bytes', free against 'both states zero'; a saved-and-loaded key therefore has the same canonical states as the original.",
+      "NOT claimed: that the SIV modes compute the documented two-pass construction, that ISAP encrypt/decrypt/MAC compute "
+      "ISAP v2.0, and that encrypt/decrypt never modify the const key (no contracts were built for them in the time available).",
+      "CBMC code contracts (DFCC): enforced function contracts with frames", "4/C06")
+
 NA_DEFAULT = {
+    "C19": "no contract-based check was built for the command-line tools' I/O error propagation (encrypt_file/decrypt_file/safe_file_read/write/hash_file/check_file with failing I/O stubs were designed, DESIGN 4/C19, but not implemented in the time available); only asconcrypt's file-name helpers are covered, under C12",
     "C11": "secret-independence of control flow and addresses is a relational (2-safety) property of the shipped object code; a CBMC contract describes one execution of the C source and has no taint or relational mode (DESIGN section 6)",
     "C17": "compilability of C++ members is a compiler verdict, and CBMC's C++ front end rejects this repository's C++ (DESIGN 2.8, section 6)",
     "C18": "eleven of twelve assembly targets are not C and 'byte-for-byte what the generator emits' / ELF flags are not proof obligations of a program verifier (DESIGN section 6)",
